@@ -30,10 +30,13 @@ import (
 	"io"
 	"math"
 	"math/big"
+	"os"
+	"os/exec"
 	"path/filepath"
 	"reflect"
 	"sort"
 	"strings"
+	"syscall"
 	"time"
 
 	"github.com/iden3/go-iden3-crypto/constants"
@@ -68,6 +71,7 @@ type Input struct {
 	Cfg      bool                       `json:"cfg"` // WithHasher given
 	Contexts map[string]json.RawMessage `json:"contexts,omitempty"`
 	DocPaths []string                   `json:"doc_paths,omitempty"`
+	Unsafe   bool                       `json:"unsafe,omitempty"` // original built with WithSafeMode(false) / stream written with safeMode=false
 }
 
 func families() []merklize.Hasher {
@@ -86,6 +90,36 @@ type drv struct {
 	gen    *docgen.Gen
 	scens  []*scen
 	orders map[int]int
+	// hugeOK: a child process (address space capped) has shown that a declared count of 2^40 is
+	// rejected without allocating; only then is that stream also fed to MerklizerFromBytes in-process
+	hugeOK     bool
+	hugeProbes int
+	// blobs of earlier scenarios, kept across later MarshalBinary calls of OTHER merklizers
+	held []heldBlob
+	tiny *merklize.Merklizer
+}
+
+// heldBlob: a MarshalBinary result that the caller keeps while other merklizers are serialized.
+type heldBlob struct {
+	b    []byte // the slice MarshalBinary returned
+	copy []byte // its content at that time
+	root *big.Int
+	opts []merklize.MerklizeOption
+	in   Input
+}
+
+const tinyDoc = `{"@context":{"p":{"@id":"http://ex.org/v#tiny","@type":"http://www.w3.org/2001/XMLSchema#string"}},"@id":"urn:tiny","p":"x"}`
+
+// checkHeld: a blob handed out earlier must still hold the same bytes and restore to the same root.
+func (d *drv) checkHeld(h heldBlob, when string) {
+	if !bytes.Equal(h.b, h.copy) {
+		d.rep.Fail("c13-blob-overwritten", "the byte slice returned by an earlier MarshalBinary changed "+when+" (it aliases memory that a later MarshalBinary of another merklizer wrote to)", h.in)
+		return
+	}
+	m, o := fromBytes(h.b, h.opts...)
+	if o.Class != "ok" || m.Root().BigInt().Cmp(h.root) != 0 {
+		d.rep.Fail("c13-blob-overwritten", "a blob kept across later MarshalBinary calls no longer restores to its merklizer "+when+": "+o.Msg, h.in)
+	}
 }
 
 // ---- typed content of a real gob stream ----
@@ -102,6 +136,7 @@ type wireEntry struct {
 	tag     uint8
 	payload any // int64 | bool | string | time.Time | *big.Int
 	dt      string
+	blob    []byte // the entry's own MarshalBinary output as found in the stream
 }
 
 type wireObs struct {
@@ -196,6 +231,7 @@ func parseWire(b []byte) (w *wireObs, err error) {
 			return nil, fmt.Errorf("entry %d: %w", i, e)
 		}
 		we.key = key
+		we.blob = bl.b
 		w.entries = append(w.entries, we)
 	}
 	if err = dec.Decode(&w.safe); err != nil {
@@ -211,13 +247,14 @@ func parseWire(b []byte) (w *wireObs, err error) {
 // ---- scenario ----
 
 type restoreObs struct {
-	cfg   int    // 0 none, 1 WithHasher(Rc)
-	tree  string // none | same | empty | leaf
-	leafK *big.Int
-	leafV *big.Int
-	ok    bool
-	root  *big.Int
-	ents  map[string]mzrun.EntryView
+	cfg    int    // 0 none, 1 WithHasher(Rc)
+	tree   string // none | same | empty | leaf
+	leafK  *big.Int
+	leafV  *big.Int
+	ok     bool
+	root   *big.Int
+	ents   map[string]mzrun.EntryView
+	tamper int // see BinaryRun.tamper_wire
 }
 
 type singleObs struct {
@@ -593,7 +630,7 @@ func (d *drv) scenario(in Input) {
 
 	var m1 *merklize.Merklizer
 	if in.Stream == "crafted" {
-		stream, err := craftedStream(in.Crafted, want)
+		stream, err := craftedStream(in.Crafted, want, !in.Unsafe)
 		if err != nil {
 			d.rep.Count("crafted-unbuildable")
 			return
@@ -607,7 +644,11 @@ func (d *drv) scenario(in Input) {
 		}
 	} else {
 		var o mzrun.Outcome
-		m1, o = mzrun.Merklize(in.Doc, optsFor(in.Cfg)...)
+		o1 := optsFor(in.Cfg)
+		if in.Unsafe {
+			o1 = append(o1, merklize.WithSafeMode(false))
+		}
+		m1, o = mzrun.Merklize(in.Doc, o1...)
 		d.rep.Count("merklize:" + o.Class)
 		if o.Class != "ok" {
 			return
@@ -635,7 +676,29 @@ func (d *drv) scenario(in Input) {
 		d.rep.Fail("c13-marshal-"+mo.Class, "MarshalBinary: "+mo.Msg, in)
 		return
 	}
-	w, err := parseWire(b1)
+	// the caller keeps b1 while OTHER merklizers are serialized (sequence: marshal A, marshal B, restore A)
+	held := heldBlob{b: b1, copy: append([]byte(nil), b1...), root: m1.Root().BigInt(), opts: optsFor(in.Cfg), in: in}
+	if d.tiny == nil {
+		d.tiny, _ = mzrun.Merklize([]byte(tinyDoc), merklize.WithDocumentLoader(d.loader))
+	}
+	if d.tiny != nil {
+		for i := 0; i < 6; i++ {
+			if i%2 == 0 {
+				_, _ = d.tiny.MarshalBinary()
+			} else {
+				_, _ = marshal(d.tiny)
+			}
+		}
+		d.checkHeld(held, "after a smaller merklizer was serialized")
+	}
+	for _, h := range d.held {
+		d.checkHeld(h, "after the next documents were serialized")
+	}
+	d.held = append(d.held, held)
+	if len(d.held) > 2 {
+		d.held = d.held[1:]
+	}
+	w, err := parseWire(held.copy)
 	if err != nil {
 		d.rep.Fail("c13-wire-format", "the stream does not have the documented typed layout: "+err.Error(), in)
 		return
@@ -673,6 +736,33 @@ func (d *drv) scenario(in Input) {
 		d.rep.Fail("c13-compacted", "compacted document changed", in)
 	}
 	d.comparePaths(s, m1, m2, d.pathsFor(ents1), "restore")
+	// the restored merklizer pins its hasher: a later merklize.SetHasher changes nothing
+	if !in.Cfg {
+		late := hashers.NewRecorder(hashers.Mod{P: new(big.Int).Set(constants.Q), SaltBytes: []byte("late:"), SaltElem: big.NewInt(4242), Name: "late"})
+		merklize.SetHasher(late)
+		if m2.Hasher() != want {
+			d.rep.Fail("c13-hasher-not-pinned", "after merklize.SetHasher the merklizer restored without WithHasher reports another Hasher()", in)
+		}
+		d.compareEntries(s, ents1, entsOf(m2), want, "after SetHasher")
+		ps := d.pathsFor(ents1)
+		d.comparePaths(s, m1, m2, ps[:min(6, len(ps))], "after SetHasher")
+		for i, k := range sortedKeys(ents1) {
+			if i >= 6 {
+				break
+			}
+			p, err := m2.Options().NewPath(ents1[k].Parts...)
+			if err != nil {
+				continue
+			}
+			pr, _, err := m2.Proof(context.Background(), p)
+			if err != nil || pr == nil || !pr.Existence {
+				d.rep.Fail("c13-hasher-not-pinned", fmt.Sprintf("after merklize.SetHasher the restored merklizer no longer proves its member %v (%v)", ents1[k].Parts, err), in)
+				break
+			}
+		}
+		merklize.SetHasher(s.rd)
+	}
+
 	// second generation: restored -> bytes -> restored
 	if b2, o := marshal(m2); o.Class == "ok" {
 		if m3, o3 := fromBytes(b2, optsFor(in.Cfg)...); o3.Class != "ok" || m3.Root().BigInt().Cmp(m1.Root().BigInt()) != 0 {
@@ -810,6 +900,84 @@ func (d *drv) scenario(in Input) {
 		s.rest = append(s.rest, ro)
 	}
 
+	// (d') tampered streams: every one must be an error (never a panic, hang or success)
+	for tc := 0; tc <= 5; tc++ {
+		tb, err := encodeWire(w, tc, -1, nil)
+		if err != nil {
+			continue
+		}
+		if tc == 5 && !d.hugeOK {
+			if d.hugeProbes >= 3 {
+				d.rep.Count("huge-count:skipped")
+				continue
+			}
+			d.hugeProbes++
+			cls, msg := d.probeHuge(tb)
+			d.rep.Count("huge-count-probe:" + cls)
+			if cls != "err" {
+				d.rep.Fail("c13-restore-"+cls, "declared entry count 2^40 (child process, address space capped at 8 GiB): "+msg, in)
+				continue
+			}
+			d.hugeOK = true
+		}
+		m, o := fromBytes(tb, optsFor(in.Cfg)...)
+		ro := restoreObs{cfg: b2i(in.Cfg), tree: "none", ok: o.Class == "ok", tamper: tc}
+		d.rep.Evaluations++
+		switch {
+		case tc == 0:
+			// the harness' own re-encoding of the unchanged content must restore like the original bytes
+			if o.Class != "ok" || m.Root().BigInt().Cmp(m1.Root().BigInt()) != 0 {
+				d.rep.Fail("c13-reencoded-rejected", "a re-encoding of the same typed content does not restore: "+o.Msg, in)
+			}
+		case tc == 3 && w.n == 0:
+			// count -1 on an empty merklizer is tamper 4
+		case o.Class == "ok":
+			d.rep.Fail("c13-tampered-accepted", fmt.Sprintf("stream with tamper #%d (1 version, 2 count+1, 3 count-1, 4 count=-1, 5 count=2^40) was accepted", tc), in)
+		case o.Class != "err":
+			d.rep.Fail("c13-restore-"+o.Class, fmt.Sprintf("stream with tamper #%d: %s", tc, o.Msg), in)
+		}
+		if o.Class == "ok" {
+			ro.root, ro.ents = m.Root().BigInt(), entsOf(m)
+		}
+		s.rest = append(s.rest, ro)
+	}
+	if len(w.entries) > 0 {
+		i := d.cfg.Rng.Intn(len(w.entries))
+		e := w.entries[i]
+		variants := map[string][]byte{
+			"entry version 2":           entryBlob(2, e.parts, e.tag, e.payload, e.dt),
+			"unknown entry type 9":      entryBlob(e.ver, e.parts, 9, e.payload, e.dt),
+			"int64 under the bool tag":  entryBlob(e.ver, e.parts, 1, int64(7), e.dt),
+			"string under the time tag": entryBlob(e.ver, e.parts, 3, "2020-01-01", e.dt),
+			"truncated entry":           e.blob[:len(e.blob)/2],
+		}
+		names := make([]string, 0, len(variants))
+		for k := range variants {
+			names = append(names, k)
+		}
+		sort.Strings(names)
+		for _, name := range names {
+			if variants[name] == nil {
+				continue
+			}
+			tb, err := encodeWire(w, 0, i, variants[name])
+			if err != nil {
+				continue
+			}
+			_, o := fromBytes(tb, optsFor(in.Cfg)...)
+			d.rep.Evaluations++
+			if o.Class == "ok" {
+				d.rep.Fail("c13-tampered-accepted", "stream with a malformed entry ("+name+") was accepted", in)
+			} else if o.Class != "err" {
+				d.rep.Fail("c13-restore-"+o.Class, "stream with a malformed entry ("+name+"): "+o.Msg, in)
+			}
+		}
+		// a truncated stream
+		if _, o := fromBytes(b1[:len(b1)*2/3], optsFor(in.Cfg)...); o.Class != "err" {
+			d.rep.Fail("c13-restore-"+o.Class, "truncated stream: "+o.Class+" "+o.Msg, in)
+		}
+	}
+
 	// (e) single-entry round trips
 	d.singles(s, in)
 
@@ -942,7 +1110,7 @@ func normParts(ps []any) []any {
 }
 
 // craftedStream writes the stream exactly as Merklizer.MarshalBinary lays it out.
-func craftedStream(cs []CraftedEntry, h merklize.Hasher) ([]byte, error) {
+func craftedStream(cs []CraftedEntry, h merklize.Hasher, safe bool) ([]byte, error) {
 	var entries []merklize.RDFEntry
 	for _, c := range cs {
 		v, err := craftedValue(c)
@@ -988,10 +1156,63 @@ func craftedStream(cs []CraftedEntry, h merklize.Hasher) ([]byte, error) {
 			return nil, err
 		}
 	}
-	if err := enc.Encode(true); err != nil {
+	if err := enc.Encode(safe); err != nil {
 		return nil, err
 	}
 	return buf.Bytes(), nil
+}
+
+// encodeWire re-encodes a parsed stream with one field changed (BinaryRun.tamper_wire),
+// or with one entry blob replaced.
+func encodeWire(w *wireObs, tamper int, blobAt int, newBlob []byte) ([]byte, error) {
+	ver, n := w.ver, w.n
+	switch tamper {
+	case 1:
+		ver = 2
+	case 2:
+		n++
+	case 3:
+		n--
+	case 4:
+		n = -1
+	case 5:
+		n = 1 << 40
+	}
+	var buf bytes.Buffer
+	enc := gob.NewEncoder(&buf)
+	for _, x := range []any{ver, w.src, w.comp, w.root, n} {
+		if err := enc.Encode(x); err != nil {
+			return nil, err
+		}
+	}
+	for i, e := range w.entries {
+		if err := enc.Encode(e.key); err != nil {
+			return nil, err
+		}
+		b := blob{b: e.blob}
+		if i == blobAt {
+			b = blob{b: newBlob}
+		}
+		if err := enc.Encode(&b); err != nil {
+			return nil, err
+		}
+	}
+	if err := enc.Encode(w.safe); err != nil {
+		return nil, err
+	}
+	return buf.Bytes(), nil
+}
+
+// entryBlob writes an entry blob with arbitrary version / tag / payload.
+func entryBlob(ver int, parts []any, tag uint8, payload any, dt string) []byte {
+	var buf bytes.Buffer
+	enc := gob.NewEncoder(&buf)
+	for _, x := range []any{ver, parts, tag, payload, dt} {
+		if err := enc.Encode(x); err != nil {
+			return nil
+		}
+	}
+	return buf.Bytes()
 }
 
 // patchDatatype re-encodes the entry blob with another datatype string (the
@@ -1173,7 +1394,7 @@ func (s *scen) coq(f *coqgen.File, id int) string {
 			}
 			o = fmt.Sprintf("(BOOk %s [%s])", coqgen.Limbs(r.root), strings.Join(l, ";\n    "))
 		}
-		rs = append(rs, fmt.Sprintf("mkrr %d %s %s", r.cfg, t, o))
+		rs = append(rs, fmt.Sprintf("mkrr %d %s %d %s", r.cfg, t, r.tamper, o))
 	}
 	var ss []string
 	for _, x := range s.singles {
@@ -1244,10 +1465,63 @@ func docPaths(doc *docgen.Doc) []string {
 	return out
 }
 
+// probeHuge restores the stream in a child process whose address space is capped, so that an
+// unbounded allocation kills the child, not the harness.
+func (d *drv) probeHuge(stream []byte) (class, msg string) {
+	f := filepath.Join(d.cfg.OutDir, "huge-count.bin")
+	if err := os.WriteFile(f, stream, 0o600); err != nil {
+		return "harness", err.Error()
+	}
+	defer os.Remove(f)
+	tmp, err := os.MkdirTemp(d.cfg.OutDir, "probe")
+	if err != nil {
+		return "harness", err.Error()
+	}
+	defer os.RemoveAll(tmp)
+	cmd := exec.Command(os.Args[0], "-prop", "C13", "-out", tmp)
+	cmd.Env = append(os.Environ(), "VERIF_C13_PROBE="+f)
+	out, err := cmd.CombinedOutput()
+	text := string(out)
+	switch {
+	case strings.Contains(text, "PROBE:err"):
+		return "err", ""
+	case strings.Contains(text, "PROBE:ok"):
+		return "ok", "the stream was accepted"
+	case strings.Contains(text, "PROBE:panic"):
+		return "panic", lastLine(text)
+	default:
+		if len(text) > 300 {
+			text = text[:300]
+		}
+		return "oom", fmt.Sprintf("child died (%v): %s", err, text)
+	}
+}
+
+func lastLine(s string) string {
+	ls := strings.Split(strings.TrimSpace(s), "\n")
+	return ls[len(ls)-1]
+}
+
+func probeChild(path string) {
+	lim := &syscall.Rlimit{Cur: 8 << 30, Max: 8 << 30}
+	_ = syscall.Setrlimit(syscall.RLIMIT_AS, lim)
+	b, err := os.ReadFile(path)
+	if err != nil {
+		fmt.Println("PROBE:harness", err)
+		return
+	}
+	_, o := fromBytes(b)
+	fmt.Println("PROBE:"+o.Class, o.Msg)
+}
+
 func Run(cfg *common.Config) (*common.Report, error) {
 	rep := common.NewReport("C13")
+	if p := os.Getenv("VERIF_C13_PROBE"); p != "" {
+		probeChild(p)
+		return rep, nil
+	}
 	rep.Correspondence = "Merklizer.BinaryRun.bmismatches: marshal / unmarshal / entry_marshal / entry_unmarshal (Merklizer/Binary.v) vs the typed content of the real gob stream of Merklizer.MarshalBinary, merklize.MerklizerFromBytes (hasher and tree options) and RDFEntry.MarshalBinary/UnmarshalBinary"
-	rep.Rule = "originals: merklizers of docgen documents and merklizers restored from hand-built streams (int64, big integers incl. negatives and p-1, bool, string incl. non-UTF-8 bytes, times with zone offsets and nanoseconds; 0..12 entries) x {default hasher, salted Poseidon, Poseidon mod 2^61-1} x {WithHasher given or not}; per original: 1 restore compared on every observable, 20 repeated marshals, 3 caller trees, the other hasher configuration, single-entry round trips (zero receiver and Options receiver). evaluations = per-path observable comparisons + single-entry round trips; distinct = distinct (document/stream, hasher, cfg); non-trivial = at least one entry."
+	rep.Rule = "originals: merklizers of docgen documents and merklizers restored from hand-built streams (int64, big integers incl. negatives and p-1, bool, string incl. non-UTF-8 bytes, times with zone offsets and nanoseconds; 0..12 entries) x {default hasher, salted Poseidon, Poseidon mod 2^61-1} x {WithHasher given or not}; per original: 1 restore compared on every observable, 20 repeated marshals, 3 caller trees, the other hasher configuration, a later SetHasher, tampered streams (version, count +1/-1/-1/2^40 — the last first in a child process with capped address space —, malformed entries, truncation), originals with safe mode off, single-entry round trips (zero receiver and Options receiver). evaluations = per-path observable comparisons + single-entry round trips; distinct = distinct (document/stream, hasher, cfg); non-trivial = at least one entry."
 	d := &drv{cfg: cfg, rep: rep, loader: ctxload.New(), gen: docgen.New(cfg.Rng), orders: map[int]int{}}
 	if cfg.Replay != "" {
 		var rf struct {
@@ -1279,7 +1553,7 @@ func Run(cfg *common.Config) (*common.Report, error) {
 		}
 		hi := i % len(fam)
 		in := Input{Stream: "docgen", Doc: json.RawMessage(doc.Bytes), Hasher: hi, Cfg: hi != 0 || i%2 == 0,
-			Contexts: d.contextsOf(doc.Bytes), DocPaths: docPaths(doc)}
+			Contexts: d.contextsOf(doc.Bytes), DocPaths: docPaths(doc), Unsafe: i%4 == 1}
 		d.scenario(in)
 		if i%17 == 0 {
 			rep.Sample(map[string]any{"stream": "docgen", "doc": string(doc.Bytes), "hasher": hi, "cfg": in.Cfg})
@@ -1289,7 +1563,7 @@ func Run(cfg *common.Config) (*common.Report, error) {
 	for i := 0; i < nCraft; i++ {
 		hi := i % len(fam)
 		spec := d.craftedSpec(fam[hi].Prime())
-		in := Input{Stream: "crafted", Crafted: spec, Hasher: hi, Cfg: hi != 0 || i%2 == 0}
+		in := Input{Stream: "crafted", Crafted: spec, Hasher: hi, Cfg: hi != 0 || i%2 == 0, Unsafe: i%3 == 1}
 		if in.Crafted == nil {
 			in.Crafted = []CraftedEntry{}
 		}
